@@ -58,6 +58,22 @@ def _read_fields(repo, c, start_cls, expr, seen):
     return fields
 
 
+def _resets_memo(repo, k, f, memo, depth=0):
+    """Function f, executed on an instance of concrete class k, sets self.<memo> = None - itself or in a
+    method it calls on self (hooks overridden in k are resolved through k's MRO)."""
+    if f is None or depth > 2:
+        return False
+    for n in fn_walk(f.node):
+        if isinstance(n, ast.Assign) and any(self_attr(t) == memo for t in n.targets) and isinstance(n.value, ast.Constant) and n.value.value is None:
+            return True
+    for n in fn_walk(f.node):
+        if isinstance(n, ast.Call) and isinstance(n.func, ast.Attribute) and self_attr(n.func):
+            callee = repo.resolve(k, self_attr(n.func), "method")
+            if callee is not None and callee is not f and _resets_memo(repo, k, callee, memo, depth + 1):
+                return True
+    return False
+
+
 def r31_memo(repo, sink):
     # scope: grid specifications (the property is about data_shape / data_size / data_points)
     gb = repo.cls("GridBase")
@@ -88,9 +104,8 @@ def r31_memo(repo, sink):
             if not any(repo.resolve(k, f.name, "setter" if f.name in f.cls.setters and f.cls.setters[f.name] is f else "method") is f
                        for k in concrete):
                 continue
-            resets = memo in stores and any(
-                isinstance(n, ast.Assign) and any(self_attr(t) == memo for t in n.targets)
-                and isinstance(n.value, ast.Constant) and n.value.value is None for n in fn_walk(f.node))
+            holders = [k for k in concrete if repo.resolve(k, f.name, "setter" if f.name in f.cls.setters and f.cls.setters[f.name] is f else "method") is f]
+            resets = all(_resets_memo(repo, k, f, memo) for k in holders)
             sink.check(resets, "R31", f"memo-reset:{c.name}.{g.name}:{f.qualname}", f,
                        ok=f"{f.qualname} writes {sorted(hit)} and resets the memo self.{memo}",
                        bad=f"{f.qualname} writes {sorted(hit)}, which {c.name}.{g.name} is computed from, "
@@ -763,79 +778,134 @@ class _IdxInterp(FinamInterp):
 
 
 def r32b_indexspace(repo, sink):
-    gt = "src/finam/data/grid_tools.py"
-    om = repo.func(gt, "order_map")
-    gc = repo.func(gt, "gen_cells")
-    tails = [n for n in gc.node.body if isinstance(n, ast.If) and "order" in U(n.test) and "'C'" in U(n.test)]
-    if len(tails) != 1:
-        sink.unknown("R32", "gen_cells-reorder", gc, "gen_cells: no `if order == 'C'` re-ordering block")
-        return
-    it = _IdxInterp(repo)
-    env = {"c": _IdxTable("F", "F"), "dims": Sym("space", "points"), "c_dim": Sym("space", "cells"), "__mod__": gc.module, "order": "C",
-           "mesh_dim": 2}
-    try:
-        it.exec_block(tails[0].body, env, gc.module)
-        c = env["c"]
-        ok = isinstance(c, _IdxTable) and c.row_order == "C" and c.id_order == "C"
-        sink.check(ok, "R32", "gen_cells-reorder", gc, ok="C order: node ids re-labelled F->C numbering, rows re-ordered to C order",
-                   bad=f"gen_cells(order='C') yields {c!r}; rows must be in C order with C-numbered node ids")
-    except _IdxTypeError as exc:
-        sink.bad("R32", "gen_cells-reorder", gc, f"index-space mismatch in gen_cells(order='C'): {exc}: cells no longer describe the "
-                 "k-th cell of the data layout (cell centres / cell data permuted for non-square grids)")
-    except (AnalysisError, Undecided, Raised) as exc:
-        sink.unknown("R32", "gen_cells-reorder", gc, f"re-ordering block outside vocabulary: {exc}")
-    # the F-order path must not re-order: the block's condition, evaluated for order 'F', is false
-    t = tails[0].test
-    try:
-        vals = []
-        for md in (1, 2, 3):
-            it2 = _IdxInterp(repo)
-            vals.append(bool(it2.truth(it2.eval(t, {"order": "F", "mesh_dim": md, "__mod__": gc.module}, gc.module), t)))
-        sink.check(not any(vals), "R32", "gen_cells-F-untouched", gc, ok="re-ordering only for C order",
-                   bad="gen_cells re-orders cells for other orders than C")
-    except (AnalysisError, Undecided, Raised, KeyError) as exc:
-        sink.unknown("R32", "gen_cells-F-untouched", gc, f"condition of the re-ordering block `{U(t)}` outside vocabulary: {exc}")
+    """Index-space typing of the C-order re-indexing in gen_cells: decided on the whole function (r32e_gen_cells)."""
+    r32e_gen_cells(repo, sink)
 
 
 # ========================================================================== R32c
+class _CentInterp(FinamInterp):
+    """Selection algebra for gen_node_centers: a boolean selector of one cell type and the
+    indices of its true entries select the same rows; rows(CELLS, sel) restricted to the first n
+    columns is cols(rows(CELLS, sel), n) however the two subscripts are written."""
+
+    def __init__(self, repo):
+        super().__init__(repo)
+        self.stores = []
+
+    def global_name(self, name, mod):
+        if name == "NODE_COUNT":
+            return Sym("NODE_COUNT")
+        return super().global_name(name, mod)
+
+    def ext_call(self, name, args, kwargs, node):
+        short = name.split(".")[-1]
+        if short == "unique":
+            return [Sym("ctype")]
+        if short in ("flatnonzero",) or (short in ("nonzero", "where") and len(args) == 1):
+            a = args[0]
+            return a if short == "flatnonzero" else (a,)
+        if short == "empty":
+            return Obj(label="result")
+        if short in ("mean", "average", "nanmean"):
+            ax = kwargs.get("axis", args[1] if len(args) > 1 else None)
+            return Sym("mean", args[0], ax)
+        if short in ("asarray", "array"):
+            return args[0]
+        return super().ext_call(name, args, kwargs, node)
+
+    def get_attr(self, obj, attr, node, mod):
+        if isinstance(obj, Sym) and obj.op != "ext" and attr == "mean":
+            return Sym("meanmethod", obj)
+        return super().get_attr(obj, attr, node, mod)
+
+    def call_hook(self, fv, args, kwargs, node, mod):
+        if isinstance(fv, Sym) and fv.op == "meanmethod":
+            return Sym("mean", fv.args[0], kwargs.get("axis", args[0] if args else None))
+        return super().call_hook(fv, args, kwargs, node, mod)
+
+    def sym_compare(self, op, left, right, node):
+        if isinstance(op, ast.Eq) and {repr(left), repr(right)} == {repr(Sym("CT")), repr(Sym("ctype"))}:
+            return Sym("sel")
+        return super().sym_compare(op, left, right, node)
+
+    def truth(self, v, node):
+        return super().truth(v, node)
+
+    def e_Slice(self, e, env, mod):
+        return Sym("slice", *(self.eval(x, env, mod) if x is not None else None for x in (e.lower, e.upper, e.step)))
+
+    def sym_item(self, c, k, node):
+        full = Sym("slice", None, None, None)
+        if isinstance(c, Sym) and c.op == "NODE_COUNT":
+            return Sym("node_count", k)
+        if isinstance(k, tuple) and len(k) == 1:
+            k = k[0]
+        if isinstance(c, Sym) and c.op == "CELLS":
+            if k == Sym("sel"):
+                return Sym("rows", c, k)
+            if isinstance(k, tuple) and len(k) == 2 and k[0] == Sym("sel") and isinstance(k[1], Sym) and k[1].op == "slice" and k[1].args[0] is None and k[1].args[2] is None:
+                return Sym("cols", Sym("rows", c, Sym("sel")), k[1].args[1])
+        if isinstance(c, Sym) and c.op == "rows" and isinstance(k, tuple) and len(k) == 2 and k[0] == full and isinstance(k[1], Sym) and k[1].op == "slice" \
+                and k[1].args[0] is None and k[1].args[2] is None:
+            return Sym("cols", c, k[1].args[1])
+        if isinstance(c, Sym) and c.op == "PTS" and isinstance(k, Sym) and k.op in ("cols", "rows"):
+            return Sym("take", c, k)
+        return super().sym_item(c, k, node)
+
+    def get_item(self, c, k, node):
+        if isinstance(c, Sym) and c.op in ("CELLS", "PTS", "rows", "NODE_COUNT"):
+            return self.sym_item(c, k, node)
+        return super().get_item(c, k, node)
+
+    def set_item(self, c, k, v, node):
+        if isinstance(c, Obj) and c.label == "result":
+            self.stores.append((k, v))
+            return
+        super().set_item(c, k, v, node)
+
+
 def r32c_cellcenters(repo, sink):
     """Cell rows are padded with -1 for meshes mixing cell types (flatten_cells documents the
-    convention): the centroid of a cell is the mean over exactly NODE_COUNT[type] node ids."""
+    convention): the centroid of a cell is the mean over exactly NODE_COUNT[type] node ids.
+    Decided by an abstract run of gen_node_centers with a selection algebra."""
     f = repo.func("src/finam/data/grid_tools.py", "gen_node_centers")
-    loops = [n for n in fn_walk(f.node) if isinstance(n, ast.For)]
-    if len(loops) != 1 or not isinstance(loops[0].target, ast.Name):
-        sink.unknown("R32", "cell-centres", f, "gen_node_centers: expected one loop over the cell types")
+    grid = Obj(label="grid")
+    grid.fields.update(cell_types=Sym("CT"), points=Sym("PTS"), cells=Sym("CELLS"), cell_count=Sym("ncells"), dim=Sym("dim"))
+
+    class _I(_CentInterp):
+        def get_attr(self, obj, attr, node, mod):
+            if isinstance(obj, Obj) and obj.label == "grid" and attr in obj.fields:
+                return obj.fields[attr]
+            return super().get_attr(obj, attr, node, mod)
+
+    it = _I(repo)
+    try:
+        ret = it.run(f, [grid])
+    except (AnalysisError, Undecided, Raised) as exc:
+        sink.unknown("R32", "cell-centres", f, f"gen_node_centers outside vocabulary: {exc}")
         return
-    ct = loops[0].target.id
-    body = loops[0]
-    sel = [n for n in walk(body) if isinstance(n, ast.Assign) and isinstance(n.value, ast.Compare) and "cell_types" in U(n.value) and ct in U(n.value)]
-    idx = [n for n in walk(body) if isinstance(n, ast.Subscript) and U(n.value).endswith(".points") and "cells" in U(n.slice)]
-    ok_sel = len(sel) == 1 and isinstance(sel[0].targets[0], ast.Name)
+    want_nodes = Sym("cols", Sym("rows", Sym("CELLS"), Sym("sel")), Sym("node_count", Sym("ctype")))
     why = None
-    if not ok_sel or len(idx) != 1:
-        sink.unknown("R32", "cell-centres", f, "gen_node_centers: selection of one cell type / indexing of grid.points by grid.cells has an unknown shape")
-        return
+    if not (isinstance(ret, Obj) and ret.label == "result"):
+        why = f"returns {ret!r}, not the table of centroids it filled"
+    elif len(it.stores) != 1:
+        why = f"{len(it.stores)} stores into the centroid table per cell type"
     else:
-        sname = sel[0].targets[0].id
-        sl = idx[0].slice
-        # grid.cells[sel][:, :NODE_COUNT[ctype]]
-        cols = sl.slice if isinstance(sl, ast.Subscript) else None
-        restricted = False
-        if isinstance(sl, ast.Subscript) and isinstance(cols, ast.Tuple) and len(cols.elts) == 2 and isinstance(cols.elts[1], ast.Slice):
-            up = cols.elts[1].upper
-            restricted = up is not None and U(up).replace(" ", "") == f"NODE_COUNT[{ct}]" and cols.elts[1].lower is None
-            rows = U(sl.value).replace(" ", "")
-            restricted = restricted and rows.endswith(f".cells[{sname}]")
-        if not restricted:
-            why = ("the node ids of a cell are not restricted to the first NODE_COUNT[type] columns: in meshes mixing cell types the "
-                   "-1 padding (= last point) is averaged into the centroid, cell centres and everything built on them (data points of "
-                   "cell data, regridding) move")
-        means = [n for n in walk(body) if isinstance(n, ast.Call) and call_name(n) == "mean"]
-        if why is None and not (means and {k.arg: U(k.value) for k in means[0].keywords}.get("axis") == "1"):
-            why = "centroid is not the mean over the node axis (axis=1)"
-        stores = [n for n in walk(body) if isinstance(n, ast.Assign) and isinstance(n.targets[0], ast.Subscript) and U(n.targets[0].slice) == sname]
-        if why is None and not stores:
-            why = "centroids are not written back to the rows of the selected cell type"
+        key, val = it.stores[0]
+        if key != Sym("sel"):
+            why = f"centroids are written to rows {key!r}, not to the rows of the selected cell type"
+        elif not (isinstance(val, Sym) and val.op == "mean"):
+            why = f"the stored value {val!r} is not a mean"
+        elif val.args[1] != 1:
+            why = f"centroid is the mean over axis {val.args[1]!r}, not over the node axis (axis=1)"
+        elif val.args[0] != Sym("take", Sym("PTS"), want_nodes):
+            got = val.args[0]
+            if "node_count" not in repr(got):
+                why = ("the node ids of a cell are not restricted to the first NODE_COUNT[type] columns: in meshes mixing cell types the "
+                       "-1 padding (= last point) is averaged into the centroid, cell centres and everything built on them (data points of "
+                       "cell data, regridding) move")
+            else:
+                why = f"centroid is the mean of {got!r}; expected the points at the first NODE_COUNT[type] node ids of the cells of that type"
     sink.check(why is None, "R32", "cell-centres", f, ok="centroid = mean over exactly the nodes of the cell (padding excluded), per cell type", bad=why or "")
 
 
@@ -956,60 +1026,175 @@ class _CellInterp(FinamInterp):
 
 
 def r32d_cellcorners(repo, sink):
+    """Corner formulas of gen_cells: decided on the whole function (r32e_gen_cells, run once per repo)."""
+    r32e_gen_cells(repo, sink)
+
+
+def _subst(v, mapping):
+    if isinstance(v, Sym):
+        if v in mapping:
+            return mapping[v]
+        return Sym(v.op, *[_subst(a, mapping) for a in v.args])
+    return v
+
+
+# ========================================================================== R32e
+# gen_cells as a whole: one abstract run per mesh dimension and order.  The node table is a
+# list of column formulas in the cell index R (mixed-radix algebra, as in R32d); for order 'C'
+# the table additionally carries its index-space type (rows in F/C order, ids in F/C numbering,
+# as in R32b) through the two order_map re-indexings.
+class _WCells(_CellTable):
+    def __init__(self, ncols):
+        super().__init__(ncols)
+        self.row_order, self.id_order = "F", "F"
+
+    def clone(self):
+        n = _WCells(self.ncols)
+        n.cols = dict(self.cols)
+        n.row_order, n.id_order = self.row_order, self.id_order
+        return n
+
+    def __repr__(self):
+        return f"cells<rows in {self.row_order} order, node ids in {self.id_order} numbering>"
+
+
+class _WholeCells(_CellInterp):
+    def __init__(self, repo, n_syms):
+        super().__init__(repo)
+        self.n_syms = n_syms
+
+    # dims are the point counts P_k = N_k + 1 > 1
+    def compare(self, op, left, right, node):
+        if isinstance(left, Sym) and left.op == "P" and isinstance(right, int) and isinstance(op, (ast.Gt, ast.GtE, ast.Lt, ast.LtE, ast.Eq, ast.NotEq)):
+            return {ast.Gt: right <= 1, ast.GtE: right <= 2, ast.Lt: False, ast.LtE: False, ast.Eq: False, ast.NotEq: True}[type(op)] \
+                if right <= 2 or isinstance(op, (ast.Lt, ast.LtE, ast.Eq, ast.NotEq)) else super().compare(op, left, right, node)
+        return super().compare(op, left, right, node)
+
+    def binop(self, op, left, right, node):
+        if isinstance(op, ast.Sub) and isinstance(left, Sym) and left.op == "P" and right == 1:
+            return self.n_syms[left.args[0]]  # P_k - 1 = N_k
+        if isinstance(left, Sym) and left.op == "colvec":
+            cols = right
+            if isinstance(cols, (list, tuple)) and isinstance(op, ast.Add):
+                t = _WCells(len(cols))
+                for i, c in enumerate(cols):
+                    t.cols[i] = c if c == 0 else Sym("add", left.args[0], c)
+                    if c == 0:
+                        t.cols[i] = left.args[0]
+                return t
+            raise AnalysisError("column vector combined with something else than a row of offsets")
+        if isinstance(right, Sym) and right.op == "colvec" and isinstance(op, ast.Add):
+            return self.binop(op, right, left, node)
+        if isinstance(left, (list, tuple)) and isinstance(right, (list, tuple)) and isinstance(op, ast.Add):
+            return list(left) + list(right)
+        return super().binop(op, left, right, node)
+
+    def ext_call(self, name, args, kwargs, node):
+        short = name.split(".")[-1]
+        if short == "prod":
+            seq = list(args[0])
+            out = seq[0] if seq else 1
+            for x in seq[1:]:
+                out = Sym("mul", out, x)
+            return out
+        if short == "arange":
+            return Sym("R")
+        if short == "empty":
+            shape = args[0]
+            return _WCells(shape[1] if isinstance(shape, (tuple, list)) and len(shape) > 1 else 1)
+        if short in ("array", "asarray"):
+            a = args[0]
+            if isinstance(a, (list, tuple)) and len(a) == 1 and isinstance(a[0], (list, tuple)):
+                t = _WCells(len(a[0]))
+                t.cols = dict(enumerate(a[0]))
+                return t
+            return list(a) if isinstance(a, (list, tuple)) else a
+        return super().ext_call(name, args, kwargs, node)
+
+    def builtin(self, name, args, kwargs, node):
+        if name == "int":
+            return args[0]
+        return super().builtin(name, args, kwargs, node)
+
+    def get_attr(self, obj, attr, node, mod):
+        if isinstance(obj, Sym) and obj.op == "ext" and attr == "newaxis":
+            return None
+        return super().get_attr(obj, attr, node, mod)
+
+    def call_hook(self, fv, args, kwargs, node, mod):
+        if isinstance(fv, Closure) and getattr(fv.func, "name", "") == "order_map":
+            shape = args[0]
+            of = kwargs.get("of", args[1] if len(args) > 1 else "F")
+            to = kwargs.get("to", args[2] if len(args) > 2 else "C")
+            space = "points" if any(isinstance(x, Sym) and x.op == "P" for x in shape) else "cells"
+            return _IdxMap(space, to, of)
+        return super().call_hook(fv, args, kwargs, node, mod)
+
+    def get_item(self, c, k, node):
+        if isinstance(c, Sym) and isinstance(k, tuple) and len(k) == 2 and k[1] is None:
+            return Sym("colvec", c)
+        if isinstance(c, _IdxMap) and isinstance(k, _WCells):
+            if c.space != "points":
+                raise _IdxTypeError(f"node ids are re-labelled with a map over the {c.space} index space")
+            if c.index_order != k.id_order:
+                raise _IdxTypeError(f"{c!r} is indexed by {c.index_order}-positions but the cell table holds {k.id_order}-numbered node ids")
+            n = k.clone()
+            n.id_order = c.value_order
+            return n
+        if isinstance(c, _WCells) and isinstance(k, _IdxMap):
+            if k.space != "cells":
+                raise _IdxTypeError(f"cell rows are re-ordered with a map over the {k.space} index space")
+            if k.value_order != c.row_order:
+                raise _IdxTypeError(f"{k!r} holds {k.value_order}-ids but the rows of the cell table are in {c.row_order} order")
+            n = c.clone()
+            n.row_order = k.index_order
+            return n
+        return super().get_item(c, k, node)
+
+    def e_Subscript(self, e, env, mod):
+        cval = self.eval(e.value, env, mod)
+        if isinstance(cval, Sym) and isinstance(e.slice, ast.Tuple) and len(e.slice.elts) == 2 and isinstance(e.slice.elts[0], ast.Slice):
+            return self.get_item(cval, (None, self.eval(e.slice.elts[1], env, mod)), e)
+        if isinstance(cval, (_WCells, _IdxMap)):
+            k = self.eval(e.slice, env, mod) if not isinstance(e.slice, ast.Tuple) else None
+            if isinstance(k, (_WCells, _IdxMap)):
+                return self.get_item(cval, k, e)
+        return super().e_Subscript(e, env, mod)
+
+
+def r32e_gen_cells(repo, sink):
+    """gen_cells(dims, order): corners (order 'F', 1-3D) and index-space typing (order 'C')."""
     import itertools
-    gc = repo.func("src/finam/data/grid_tools.py", "gen_cells")
-    chain = [n for n in gc.node.body if isinstance(n, ast.If) and "mesh_dim" in U(n.test)]
-    if not chain:
-        sink.unknown("R32", "cell-corners", gc, "gen_cells: no branch on mesh_dim")
+    if id(sink) in getattr(repo, "_r32e_done", set()):
         return
-    # flatten if / elif / else on mesh_dim
-    branches = {}
-    cur = chain[0]
-    while True:
-        t = U(cur.test).replace(" ", "")
-        if t.startswith("mesh_dim=="):
-            branches[int(t.split("==")[1])] = cur.body
-        if len(cur.orelse) == 1 and isinstance(cur.orelse[0], ast.If) and "mesh_dim" in U(cur.orelse[0].test):
-            cur = cur.orelse[0]
-            continue
-        if cur.orelse:
-            branches["else"] = cur.orelse
-        break
+    repo.__dict__.setdefault("_r32e_done", set()).add(id(sink))
+    gc = repo.func("src/finam/data/grid_tools.py", "gen_cells")
     N = [Sym("N0"), Sym("N1"), Sym("N2")]
     I = [Sym("i"), Sym("j"), Sym("k")]
+    P = [Sym("P", 0), Sym("P", 1), Sym("P", 2)]
     for md in (1, 2, 3):
-        body = branches.get(md, branches.get("else") if md == 3 else None)
-        if body is None:
-            sink.unknown("R32", f"cell-corners:{md}D", gc, f"no branch for mesh dimension {md}")
-            continue
-        # r = i + N0*j + N0*N1*k (digits beyond the mesh dimension are absent)
         r = I[0]
         if md >= 2:
             r = Sym("add", r, Sym("mul", N[0], I[1]))
         if md >= 3:
             r = Sym("add", r, Sym("mul", Sym("mul", N[0], N[1]), I[2]))
-        it = _CellInterp(repo)
-        env = {"c_dim": N[:md], "c_cnt": Sym("CNT"), "c_rng": Sym("R"), "mesh_dim": md, "__mod__": gc.module}
+        it = _WholeCells(repo, N)
         try:
-            it.exec_block(body, env, gc.module)
+            table = it.run(gc, [P[:md]], {"order": "F"})
         except (AnalysisError, Undecided, Raised) as exc:
-            sink.unknown("R32", f"cell-corners:{md}D", gc, f"corner formulas outside vocabulary: {exc}")
+            sink.unknown("R32", f"cell-corners:{md}D", gc, f"gen_cells outside vocabulary: {exc}")
             continue
-        table = env.get("c")
         if not isinstance(table, _CellTable) or len(table.cols) != 2 ** md:
-            sink.unknown("R32", f"cell-corners:{md}D", gc, f"expected {2 ** md} corner columns")
+            sink.unknown("R32", f"cell-corners:{md}D", gc, f"expected a table of {2 ** md} corner columns, got {table!r}")
             continue
-        from ..absbase import poly_of
         n0, n1 = _Poly.atom(N[0]), _Poly.atom(N[1])
         weights = [n0, n0 * n1]
         i_, j_ = _Poly.atom(I[0]), _Poly.atom(I[1])
         digits_below = {repr(n0): i_, repr(n0 * n1): i_ + n0 * j_}
-        rp = _idx_reduce(_subst(r, {}), weights, digits_below)
 
         def red(col):
             return _idx_reduce(_subst(col, {Sym("R"): r}), weights, digits_below)
 
-        # expected corners: Fortran-order point id in the point grid (N0+1, N1+1, ..)
         p0, p1 = n0 + _Poly.const(1), n1 + _Poly.const(1)
         k_ = _Poly.atom(I[2])
         want = set()
@@ -1031,11 +1216,26 @@ def r32d_cellcorners(repo, sink):
         sink.check(ok, "R32", f"cell-corners:{md}D", gc,
                    ok=f"{md}D cells: the {2 ** md} node columns are exactly the corners of cell (i,j,k) in the Fortran-ordered point grid",
                    bad=f"{md}D cells: node columns reduce to {sorted(map(repr, got))}, the corners of cell (i,j,k) are {sorted(map(repr, want))}")
-
-
-def _subst(v, mapping):
-    if isinstance(v, Sym):
-        if v in mapping:
-            return mapping[v]
-        return Sym(v.op, *[_subst(a, mapping) for a in v.args])
-    return v
+    # order 'C': node ids re-labelled F->C, rows re-ordered to C; order 'F' untouched
+    why, unknown = None, None
+    for md in (2, 3):
+        for order in ("C", "F"):
+            it = _WholeCells(repo, N)
+            try:
+                t = it.run(gc, [P[:md]], {"order": order})
+            except _IdxTypeError as exc:
+                why = why or (f"index-space mismatch in gen_cells({md}D, order='{order}'): {exc}: cells no longer describe the k-th cell of the data "
+                              "layout (cell centres / cell data permuted for non-square grids)")
+                continue
+            except (AnalysisError, Undecided, Raised) as exc:
+                unknown = unknown or f"gen_cells({md}D, order='{order}') outside vocabulary: {exc}"
+                continue
+            if not isinstance(t, _WCells):
+                unknown = unknown or f"gen_cells({md}D, order='{order}') returns {t!r}"
+            elif (t.row_order, t.id_order) != (order, order):
+                why = why or f"gen_cells({md}D, order='{order}') yields {t!r}; rows must be in {order} order with {order}-numbered node ids"
+    if why is None and unknown is not None:
+        sink.unknown("R32", "gen_cells-reorder", gc, unknown)
+    else:
+        sink.check(why is None, "R32", "gen_cells-reorder", gc, ok="C order: node ids re-labelled F->C numbering, rows re-ordered to C order; F order untouched",
+                   bad=why or "")
